@@ -52,6 +52,15 @@ func concScenarios() []concScen {
 		out = append(out, concScen{"read‖setmax/" + ex, CacheCfg{MaxSize: 2, Executor: ex}, two, [][]string{{"get 1"}, {"setmax 1"}}, "native"})
 		out = append(out, concScen{"insert‖setmax/" + ex, CacheCfg{MaxSize: 3, Executor: ex}, two, [][]string{{"set 3"}, {"setmax 1"}}, "native"})
 	}
+	// a read whose access event reaches the policy after the node it names was replaced or removed
+	for _, ex := range []string{"caller", "default"} {
+		three := []string{"set 1", "set 2", "set 3"}
+		out = append(out, concScen{"read‖update/" + ex, CacheCfg{MaxSize: 2, Executor: ex}, two, [][]string{{"get 1"}, {"set 1"}}, "native"})
+		out = append(out, concScen{"read‖update(probation)/" + ex, CacheCfg{MaxSize: 4, Executor: ex}, three, [][]string{{"get 1"}, {"set 1"}}, "native"})
+		out = append(out, concScen{"read‖update(probation-tail)/" + ex, CacheCfg{MaxSize: 4, Executor: ex}, three, [][]string{{"get 2"}, {"set 2"}}, "native"})
+		out = append(out, concScen{"read‖update(promoted)/" + ex, CacheCfg{MaxSize: 3, Executor: ex}, promoted, [][]string{{"get 1"}, {"set 1"}}, "native"})
+		out = append(out, concScen{"read‖invalidate(probation)/" + ex, CacheCfg{MaxSize: 4, Executor: ex}, three, [][]string{{"get 1"}, {"inv 1"}}, "native"})
+	}
 	// S6 load install || eviction
 	out = append(out, concScen{"load‖insert-evict/caller", CacheCfg{MaxSize: 2, Executor: "caller"}, two, [][]string{{"load 3"}, {"set 4"}}, "native"})
 	return out
